@@ -5,6 +5,7 @@ Kinds (harness/src/fam_bufstore.rs, ocaml/fam_bufstore.ml, model coq/theories/Bu
   bs.abs  (same)                        model side = the window-level runner abs_run (proved = bs_run)
   bs.rec  spec data1 sched1 ops1 data2 sched2 ops2     second window built from the first one's buffer
 ops: f | f<hex byte> (fill_buf; the Read also dirties the unreported part of its slice with that byte) |
+     z | z<hex byte> (fill_buf over a Read that answers Ok(0) although data may be left; schedule untouched) |
      a<k> advance(k mod (window_len+1)) | t<k> advance_to(start + k mod (window_len+1)) |
      g<i>.<j> get(a..b), a = i mod (end+1), b = a + j mod (end-a+1) | A<k> T<p> G<i>.<j> the same unresolved.
 Output: one item per op `<ev>:<window hex>@<position>/<consumed_data>`, ev = F<n> | IO | FULL | A<amt> | G<hex>.
@@ -51,10 +52,16 @@ class Sim:
     def step(self, op):
         """expected item, or 'PANIC' when the op is outside the window's contract"""
         c, arg = op[0], op[1:]
-        if c == "f":
+        if c in "fz":
             carry = self.wl()
             if carry >= self.cap:
                 return self.view("F0" if self.cap == 0 else "FULL")
+            if c == "z":
+                if carry and self.start:
+                    self.moves += 1
+                self.prior += self.start
+                self.start, self.end = 0, carry
+                return self.view("F0")
             if carry and self.start:
                 self.moves += 1          # the copy_within path: a carry-over really moves
             self.prior += self.start
@@ -148,8 +155,10 @@ def rand_ops(rng, cap, n, raw_tail=False):
         x = rng.random()
         big = rng.choice([0, 1, 2, 3, cap - 1, cap, cap + 1, 2 * cap + 1, rng.randrange(0, 3 * cap + 4)])
         big = max(big, 0)
-        if x < 0.36:
+        if x < 0.33:
             ops.append("f")
+        elif x < 0.36:
+            ops.append(rng.choice(["z", "z7b", "z22"]))
         elif x < 0.46:
             ops.append("f%02x" % rng.choice([0x7b, 0x7d, 0x22, 0x5c, 0x00, 0x61, 0xff]))
         elif x < 0.66:
@@ -225,6 +234,8 @@ def edge_cases():
         "bs.ops\tbuf\t%s\t%s\t-\tf,f,a1,f,a1,f,a1,f,f" % (h(b"{"), h(b"xy")),
         # empty data: Ok(0) from the first fill on, nothing of the dirty buffer shows
         "bs.ops\tbuf\t%s\t-\t-\tf,f,g0.0,a5,f" % h(b'"{}"#'),
+        # zero-length reads in the middle of the data (with and without a carry-over), then the data arrives
+        "bs.ops\tbuf\t%s\t%s\t2,2,9\tz,f,z7d,a1,z,g0.1,f,z22,f" % (h(b"}}}}}"), h(b"abcdefg")),
         # fault, then the retry delivers; the failing Read scribbled over the free space
         "bs.ops\tbuf\t%s\t%s\tF,2,F,F,1\tf7d,f,a1,f7b,f22,f,f,f" % (h(b"zzzzz"), h(b"k=v w")),
         # zero capacity (buffer_len(0)): fill_buf answers Ok(0) like the slice window
@@ -266,3 +277,50 @@ def run(ctx, pid, n_quick, n_thorough, profiles=("release",), crash_oracle=False
                       "bufstore-position" if at < len(oi) and at < len(ei) and oi[at].split("@")[0] == ei[at].split("@")[0] else "bufstore-window"
                 ctx.fail(key, "BufferWindow (%s build) shows something else than the stream delivered by the Read at op #%d: %s" % (prof, at, c[:200].replace("\t", " ")),
                          [c], [o], e)
+
+
+def contract_cases(rng, n_cases):
+    """op lists that END UP OUTSIDE the contract of advance / advance_to / get about two times in three (raw ops)"""
+    cases = []
+    for k in range(n_cases):
+        cap = k % 41
+        n = rng.randrange(0, 3 * cap + 5)
+        data = rand_bytes(rng, n)
+        sched = rand_sched(rng, n, cap, True)
+        ops = rand_ops(rng, cap, rng.choice([1, 3, 8]))
+        if rng.random() < 0.7:
+            x = rng.randrange(3)
+            if x == 0:
+                ops.append("A%d" % rng.randrange(0, cap + 3))
+            elif x == 1:
+                ops.append("T%d" % rng.randrange(0, cap + 1))
+            else:
+                i = rng.randrange(0, cap + 1)
+                ops.append("G%d.%d" % (i, rng.randrange(i, cap + 1)))      # i <= j: a reversed range is not a panic but UB
+            ops += rand_ops(rng, cap, 2)
+            cases.append("bs.ops\tbuf\t%s\t%s\t%s\t%s" % (hexs(rand_bytes(rng, cap)), hexs(data), sched_str(sched), ",".join(ops)))
+        else:
+            # raw offsets stay inside the borrowed data
+            ops += (["T%d" % rng.randrange(0, n + 1)] if n else []) + ["A%d" % rng.randrange(0, n + 2)]
+            cases.append("bs.ops\tslice\t-\t%s\t%s\t%s" % (hexs(data), sched_str(sched), ",".join(ops)))
+    return cases
+
+
+def run_contract(ctx, n_quick, n_thorough):
+    """NOT gating (a note in the evidence): op lists that leave the contract, debug build only.  The model's OOB outcomes
+    (sites 8600 / 8601 / 8606) must be exactly the debug_assert!s of advance_to / advance / get.  A disagreement here
+    means the model's contract and the code's stated contract drifted apart; it is no behaviour of the public API
+    (no client leaves the contract: C05_store + C05_readers), so it never produces a VIOLATION on its own."""
+    import random
+    import vlib
+    rng = random.Random((ctx.seed * 7919 + 5) & 0xffffffff)
+    cases = contract_cases(rng, ctx.scale(n_quick, n_thorough))
+    impl = vlib.run_impl(cases, "debug")
+    mod = vlib.run_model(cases)
+    dis = [(c, i, m) for c, i, m in zip(cases, impl, mod) if i != m]
+    ctx.streams["bufstore_contract_debug(not gating)"] = {"cases": len(cases), "disagree": len(dis)}
+    ctx.count("bufstore_contract_panics", sum(1 for i in impl if i == "PANIC"))
+    if dis:
+        c, i, m = dis[0]
+        ctx.notes.append("bufstore contract drift (debug build, not gating): %d of %d raw op lists; first: %s impl=%s model=%s" % (
+            len(dis), len(cases), c.replace("\t", " ")[:160], i[:80], m[:80]))
